@@ -22,6 +22,7 @@ import (
 	tftypes "github.com/palomachain/paloma/v2/x/tokenfactory/types"
 	treasurytypes "github.com/palomachain/paloma/v2/x/treasury/types"
 	vtypes "github.com/palomachain/paloma/v2/x/valset/types"
+	"github.com/palomachain/paloma/v2/zzverif/evmref"
 	"github.com/palomachain/paloma/v2/zzverif/world"
 	"google.golang.org/protobuf/proto"
 	"google.golang.org/protobuf/reflect/protoreflect"
@@ -46,6 +47,9 @@ type Tx struct {
 type Script struct {
 	W     *world.World
 	denom string
+	// proofs caches the delivery proof the relayers present per (queue, message id): every validator
+	// has to report byte-identical evidence, whatever block it reports in
+	proofs map[string]*evmtypes.TxExecutedProof
 }
 
 func NewScript(w *world.World) *Script { return &Script{W: w} }
@@ -88,6 +92,10 @@ func (s *Script) Setup() {
 		{Multiplicator: sdkmath.LegacyMustNewDecFromStr("1.5"), ChainReferenceId: Ref}, {Multiplicator: sdkmath.LegacyMustNewDecFromStr("1.0"), ChainReferenceId: Ref2}}}))
 	must(w.App.EvmKeeper.SetSmartContractDeployer(ctx, Ref, "0x00000000000000000000000000000000000000dd"))
 	must(w.App.EvmKeeper.SetFeeManagerAddress(ctx, Ref, "0x00000000000000000000000000000000000000fe"))
+	// the record of the running compass version (id 1 = the active one: nothing is deployed); without
+	// it no delivery proof can be attested
+	must(w.GovExec(ctx, &evmtypes.MsgDeployNewSmartContractProposalV2{Authority: w.Gov, AbiJSON: world.CompassABI(), BytecodeHex: "0x6080",
+		Metadata: vtypes.MsgMetadata{Creator: w.Gov, Signers: []string{w.Gov}}}))
 	d, err := w.BridgeToken(ctx, w.User("adm"), "t1", Ref, Erc20, 100000, w.User("U1"), w.User("U2"))
 	must(err)
 	s.denom = d
@@ -236,48 +244,75 @@ func (s *Script) react(i int, rctx sdk.Context) []Tx {
 	w := s.W
 	var txs []Tx
 	add := func(signer *world.Actor, msgs ...sdk.Msg) { txs = append(txs, Tx{Signer: signer, Msgs: msgs}) }
-	q := world.TurnstoneQueue(Ref)
-	for _, m := range w.Queue(rctx, q) {
-		signed := map[string]bool{}
-		for _, sd := range m.GetSignData() {
-			signed[sdk.ValAddress(sd.ValAddress).String()] = true
+	for _, ref := range []string{Ref, Ref2} {
+		q := world.TurnstoneQueue(ref)
+		onChain := uint64(1)
+		if sn, err := w.App.ValsetKeeper.GetLatestSnapshotOnChain(rctx, ref); err == nil && sn != nil {
+			onChain = sn.GetId()
 		}
-		estimated := map[string]bool{}
-		for _, ge := range m.GetGasEstimates() {
-			estimated[sdk.ValAddress(ge.ValAddress).String()] = true
-		}
-		evidenced := map[string]bool{}
-		for _, ev := range m.GetEvidence() {
-			evidenced[sdk.ValAddress(ev.ValAddress).String()] = true
-		}
-		cm, err := m.ConsensusMsg(w.App.AppCodec())
-		if err != nil {
-			continue
-		}
-		em, _ := cm.(*evmtypes.Message)
-		needEst := m.GetRequireGasEstimation() && m.GetGasEstimate() == 0
-		for k, v := range w.Vals {
-			va := v.ValAddr.String()
-			switch {
-			case needEst:
-				if !estimated[va] {
-					add(v.Actor, world.Estimate(v, q, m.GetId(), uint64(21000+100*k)))
+		for _, m := range w.Queue(rctx, q) {
+			signed := map[string]bool{}
+			for _, sd := range m.GetSignData() {
+				signed[sdk.ValAddress(sd.ValAddress).String()] = true
+			}
+			estimated := map[string]bool{}
+			for _, ge := range m.GetGasEstimates() {
+				estimated[sdk.ValAddress(ge.ValAddress).String()] = true
+			}
+			evidenced := map[string]bool{}
+			for _, ev := range m.GetEvidence() {
+				evidenced[sdk.ValAddress(ev.ValAddress).String()] = true
+			}
+			cm, err := m.ConsensusMsg(w.App.AppCodec())
+			if err != nil {
+				continue
+			}
+			em, _ := cm.(*evmtypes.Message)
+			needEst := m.GetRequireGasEstimation() && m.GetGasEstimate() == 0
+			// contract calls with an even id revert on the remote chain; everything else is delivered
+			fails := evmref.Kind(w, m) == evmref.KindLogicCall && m.GetId()%2 == 0
+			for k, v := range w.Vals {
+				va := v.ValAddr.String()
+				switch {
+				case needEst:
+					if !estimated[va] {
+						add(v.Actor, world.Estimate(v, q, m.GetId(), uint64(21000+100*k)))
+					}
+				case !signed[va]:
+					add(v.Actor, w.SignQueued(v, q, m))
+				case em != nil && em.Assignee == va && len(m.GetSignData()) >= 3 && m.GetPublicAccessData() == nil && m.GetErrorData() == nil:
+					if fails {
+						add(v.Actor, &ctypes.MsgSetErrorData{MessageID: m.GetId(), QueueTypeName: q, Data: []byte("reverted"), Metadata: world.Meta(v.Actor)})
+					} else {
+						// the relayer names the validator set that is live on the target chain
+						add(v.Actor, &ctypes.MsgSetPublicAccessData{MessageID: m.GetId(), QueueTypeName: q, Data: []byte{0xab, 0xcd}, ValsetID: onChain, Metadata: world.Meta(v.Actor)})
+					}
+				case m.GetErrorData() != nil && !evidenced[va]:
+					// the last validator disagrees about the error text
+					text := "reverted"
+					if k == 3 {
+						text = "reverted!"
+					}
+					add(v.Actor, world.Evidence(v, q, m.GetId(), &evmtypes.SmartContractExecutionErrorProof{ErrorMessage: text}))
+				case m.GetPublicAccessData() != nil && !evidenced[va]:
+					if k == 3 {
+						// the last validator did not see the transaction succeed
+						add(v.Actor, world.Evidence(v, q, m.GetId(), &evmtypes.SmartContractExecutionErrorProof{ErrorMessage: "not found"}))
+						continue
+					}
+					key := fmt.Sprintf("%s/%d", q, m.GetId())
+					p := s.proofs[key]
+					if p == nil {
+						if p, err = evmref.Proof(w, rctx, ref, m); err != nil {
+							continue // not ready (signatures below quorum)
+						}
+						if s.proofs == nil {
+							s.proofs = map[string]*evmtypes.TxExecutedProof{}
+						}
+						s.proofs[key] = p
+					}
+					add(v.Actor, world.Evidence(v, q, m.GetId(), p))
 				}
-			case !signed[va]:
-				add(v.Actor, w.SignQueued(v, q, m))
-			case em != nil && em.Assignee == va && len(m.GetSignData()) >= 3 && m.GetPublicAccessData() == nil && m.GetErrorData() == nil:
-				if m.GetId()%2 == 0 {
-					add(v.Actor, &ctypes.MsgSetErrorData{MessageID: m.GetId(), QueueTypeName: q, Data: []byte("reverted"), Metadata: world.Meta(v.Actor)})
-				} else {
-					add(v.Actor, &ctypes.MsgSetPublicAccessData{MessageID: m.GetId(), QueueTypeName: q, Data: []byte{0xab, 0xcd}, ValsetID: 1, Metadata: world.Meta(v.Actor)})
-				}
-			case m.GetErrorData() != nil && !evidenced[va]:
-				// the last validator disagrees about the error text
-				text := "reverted"
-				if k == 3 {
-					text = "reverted!"
-				}
-				add(v.Actor, world.Evidence(v, q, m.GetId(), &evmtypes.SmartContractExecutionErrorProof{ErrorMessage: text}))
 			}
 		}
 	}
